@@ -507,7 +507,7 @@ class AliasHistory(History):
            "slice": b_slice, "append": b_append, "component": b_component, "set_data": b_set_data,
            "set_item": b_set_item, "set_item2": b_set_item, "set_full": b_set_full, "setitem_api": b_setitem_api,
            "ghost": b_ghost, "inplace": b_inplace, "inplace2": b_inplace, "binary": b_binary, "unary": b_unary,
-           "producer": b_producer, "drop": b_drop}
+           "producer": b_producer, "producer2": b_producer, "producer3": b_producer, "drop": b_drop}
 
     # ---------------------------------------------------------------------------------
     # creating operations
@@ -596,6 +596,7 @@ class AliasHistory(History):
         rows = [s.full.reshape((-1,) + self.full_grid(gidx)) for s in srcs]
         buf = np.concatenate(rows, axis=0).astype(dtype)  # fields in order, components row-major
         was_member = [s for s in srcs if s.owner is not None]
+        mixed = dtype.kind == "c" and any(s.full.dtype.kind != "c" for s in srcs)
         with warnings.catch_warnings():
             warnings.simplefilter("ignore")
             obj = FieldCollection([s.obj for s in srcs], copy_fields=copy_fields)
@@ -614,8 +615,8 @@ class AliasHistory(History):
             self.flags.add("collect:link")
             if was_member:
                 self.flags.add("collect:relink-member")
-        if dtype.kind == "c" and any(s.full.dtype.kind != "c" for s in srcs) and not copies:
-            self.flags.add("collect:upcast-linked")
+        if mixed and not copies:
+            self.flags.add("collect:upcast-linked")  # a linked real field became complex
         self.add(e)
 
     op_collect2 = op_collect
@@ -992,12 +993,16 @@ class AliasHistory(History):
                 e = self.pick(h, lambda x: x.kind == "scalar" and self.naxes(x.gidx) == 2)
                 if e is None:
                     return
-                axis = axis_names(self.gspecs[e.gidx])[0]
-                obj = e.obj.project(axis)
+                names = axis_names(self.gspecs[e.gidx])
+                if other % 2:
+                    obj = e.obj.project(names[other % 4 // 2])
+                else:
+                    lo, hi = gen_grids.axes_bounds(self.gspecs[e.gidx])[1]
+                    obj = e.obj.slice({names[1]: 0.5 * (lo + hi)})
                 # the result lives on another grid: judge the memory relation and discard it
                 for x in self.live():
                     if np.shares_memory(obj._data_full, x.obj._data_full):
-                        self.fail("alias", f"projection shares memory with {x}")
+                        self.fail("alias", f"projection/slice shares memory with {x}")
                 self.flags.add("producer:project")
                 return
             elif which == "operator":
@@ -1065,6 +1070,8 @@ class AliasHistory(History):
                 if np.shares_memory(obj._data_full, x.obj._data_full):
                     self.fail("alias", f"result of {which} shares memory with {x}")
 
+    op_producer2 = op_producer3 = op_producer
+
     def op_drop(self, h):
         self.ctx = "drop"
         if len(self.pop) <= 3:
@@ -1073,10 +1080,25 @@ class AliasHistory(History):
         self.pop = [x for x in self.pop if x is not e]
 
     # ---------------------------------------------------------------------------------
+    GROUPS = {
+        "producer:to_scalar": "producer:algebra", "producer:dot": "producer:algebra",
+        "producer:outer": "producer:algebra", "producer:transpose": "producer:algebra",
+        "producer:apply": "producer:algebra", "producer:interpolate": "producer:resample",
+        "producer:smooth": "producer:resample", "producer:transpose_inplace": "tensor-inplace-conversion",
+        "producer:symmetrize_inplace": "tensor-inplace-conversion",
+        "unary:sin": "ufunc", "unary:abs": "ufunc", "unary:neg": "unary", "unary:conjugate": "unary",
+        "unary:real": "unary", "unary:imag": "unary", "getitem:index": "getitem", "getitem:label": "getitem",
+        "getitem:missing-label": None, "setitem:coll": "setitem", "setitem:vector": "setitem",
+        "setitem:tensor": "setitem", "set_data:number": "set_data", "set_data:array": "set_data",
+        "set_data:field": "set_data", "binary:number": "binary", "binary:array": "binary",
+        "binary:field": "binary", "binary:number:reflected": "binary:reflected", "set_full": None,
+        "component:vector:name": "component:vector", "component:tensor:name": "component:tensor",
+        "collect:copy:repeated": "collect:repeated-field",
+    }
+
     def record(self):
         f = self.flags
-        labels = sorted(x for x in f if x.count(":") <= 1)
-        labels += ["grid:" + gen_grids.grid_label(self.gspecs[0]).split("+")[0]]
+        labels = sorted({self.GROUPS.get(x, x) for x in f} - {None})
         if any(gen_grids.dim_of(g) != len(g["shape"]) for g in self.gspecs):
             labels.append("dim!=num_axes")
         if any(e.full.dtype.kind == "c" for e in self.pop):
